@@ -36,6 +36,11 @@ def strip_generics(path):
                         if depth == 0:
                             break
                 j += 1
+            if " as " in path[i + 3:j]:
+                # `crate::<T as Trait>::method` (local trait impl item): not a generic-argument group
+                out.append(path[i:i + 3])
+                i += 3
+                continue
             i = j + 1
             continue
         out.append(path[i])
@@ -130,6 +135,8 @@ class Rvalue:
             self.ops = [Operand(j["a"])]
         elif self.k == "agg":
             self.ops = [Operand(o) for o in j["ops"]]
+            if "closure" in j:
+                j["closure"] = strip_generics(j["closure"])
 
     @property
     def op(self):
@@ -250,7 +257,8 @@ class Fn:
     def __init__(self, j, crate):
         self.j = j
         self.crate = crate
-        self.id = j["id"]
+        self.raw_id = j["id"]
+        self.id = strip_generics(j["id"])
         self.kind = j["kind"]
         self.name = j.get("name", "")
         self.span = j.get("span", "")
@@ -258,7 +266,7 @@ class Fn:
         self.impl_adt = j.get("impl_adt")
         self.impl_self = j.get("impl_self")
         self.impl_trait = j.get("impl_trait")
-        self.parent = j.get("parent")
+        self.parent = strip_generics(j.get("parent"))
         self.arg_count = j["arg_count"]
         self.locals = j["locals"]
         self.names = j.get("names", {})
@@ -324,10 +332,8 @@ class DB:
                 i["crate"] = cname
                 self.impls.append(i)
             for k, v in d["fns"].items():
-                key = k
-                if c.endswith(".bin"):
-                    key = k  # bin crate `wac::main` etc.; no clash with libs
-                self.fns[key] = Fn(v, cname)
+                fn = Fn(v, cname)
+                self.fns[fn.id] = fn
         self._callers = None
         self._closures = None
 
@@ -410,7 +416,7 @@ class DB:
                     if v and v[0] == "fn":
                         out.add(strip_generics(v[1]))
                 if s.rv.k == "agg" and "closure" in s.rv.j:
-                    out.add(s.rv.j["closure"])
+                    out.add(strip_generics(s.rv.j["closure"]))
         if include_closures:
             for c in self.closures_of(fn.id):
                 out.add(c.id)
